@@ -2,7 +2,7 @@
 
 usage: cp -r /repo /tmp/build_C15 && /venv/bin/python selftest/builders/c15_faults.py [name-prefix]
 Every FAULT must make `EQSIG_REPO=/tmp/build_C15 ./check C15` exit 1, every QUIET edit must leave it at exit 0.
-The exact-string edits refer to /repo at f91f0dd. (The faults of DESIGN.md C15 (h) and of audit round 1 were run with a
+The exact-string edits refer to /repo at ffe760b. (The faults of DESIGN.md C15 (h) and of audit round 1 were run with a
 throw-away script; the table below starts with (h) again and adds the classes of audit round 2.)
 """
 import os
@@ -48,6 +48,15 @@ FAULTS = [
      "def get_max_stockwell_freq(asig):\n    if not hasattr(asig, \"swtf\"):\n        asig.swtf = transform(asig.values)\n",
      "def get_max_stockwell_freq(asig):\n    if hasattr(asig, \"swtf\") and hasattr(asig, \"_max_f\"):\n        return asig._max_f\n"
      "    if not hasattr(asig, \"swtf\"):\n        asig.swtf = transform(asig.values)\n", 0),
+    # -- wave 5: extreme but valid scales (1e-165..1e-300, 1e155..1e300)
+    ('w5 argmax over re**2 + im**2 (asig)', SW, "    indy_max = np.argmax(abs(asig.swtf), axis=0)\n",
+     "    indy_max = np.argmax(asig.swtf.real ** 2 + asig.swtf.imag ** 2, axis=0)\n", 0),
+    ('w5 argmax over re**2 + im**2 (tifq)', SW, "    indy_max = np.argmax(abs(tifq_values), axis=0)\n",
+     "    indy_max = np.argmax(np.real(tifq_values) ** 2 + np.imag(tifq_values) ** 2, axis=0)\n", 0),
+    ('w5 silent record test through the mean square (transform)', SW, FFT_NP,
+     "    if np.mean(np.asarray(acc_db, dtype=float) ** 2) == 0:\n        return np.zeros((n_d2, n_factor), dtype=complex)\n" + FFT_NP, 0),
+    ('w5 empty spectrum test through the power (itransform)', SW, "    acc_new = np.fft.ifft(fas_ss)\n",
+     "    if not np.isfinite(np.sum(np.abs(fas_ss) ** 2)):\n        fas_ss = np.zeros_like(fas_ss)\n    acc_new = np.fft.ifft(fas_ss)\n", 0),
 ]
 # the second half of the memoisation fault
 EXTRA = {'a12 ownership: the trace is memoised and handed out again':
